@@ -37,7 +37,7 @@ theorem stepAnnounceAge_sameRole (p p1 : Port) (step : Int) (h : p.stepAnnounceA
   · cases h
   · simp only [Except.ok.injEq] at h
     rw [← h]
-    exact ⟨rfl, rfl, rfl, (stepAge_own _ _).1⟩
+    exact ⟨rfl, rfl, rfl, (stepAge_own _ _).1, rfl⟩
 
 theorem bmcaAge_spec (step : Int) : ∀ (order : List Nat) (ports ports' : List Port),
     bmcaAge step order ports = .ok ports' →
@@ -89,7 +89,7 @@ def AfterBmca (dflt : DefaultDS) (ebest : Option Best) (lbs : List (Nat × Optio
         p.cfg.masterOnly = false)
     ∨ (j + 1 ∉ order ∧ p'.st = p.st)) ∧
   (p'.st = .master → p.st = .master ∨ dflt.slaveOnly = false) ∧
-  (j + 1 ∈ order → dflt.slaveOnly = true → p'.st ≠ .master)
+  (j + 1 ∈ order → dflt.slaveOnly = true → p'.st ≠ .master) ∧ p'.seqs = p.seqs
 
 theorem bmcaWith_ports (i i' : Inst) (order : List Nat) (step : Int) (obs : Obs) (hnd : order.Nodup)
     (h : i.bmcaWith order step = .ok (i', obs)) :
@@ -130,11 +130,11 @@ theorem bmcaWith_ports (i i' : Inst) (order : List Nat) (step : Int) (obs : Obs)
         · cases hh
         · exact hh
       · intro j p hp
-        obtain ⟨p1, hp1, r1, r2, r3, r4⟩ := t2 j p hp
-        obtain ⟨p2, hp2, b1, b2, b3, b4, b5, b6, _⟩ := a3 j p1 hp1
-        obtain ⟨p3, hp3, q1, q2, q3, q4⟩ := g2 j p2 hp2
+        obtain ⟨p1, hp1, r1, r2, r3, r4, r5⟩ := t2 j p hp
+        obtain ⟨p2, hp2, b1, b2, b3, b4, b5, b6, _, b8⟩ := a3 j p1 hp1
+        obtain ⟨p3, hp3, q1, q2, q3, q4, q5⟩ := g2 j p2 hp2
         refine ⟨p3, by rw [← hi']; exact hp3, q1.trans (b1.trans r1), q2.trans (b2.trans r2),
-          q4.trans ((congrArg FML.own b3).trans r4), ?_, ?_, ?_⟩
+          q4.trans ((congrArg FML.own b3).trans r4), ?_, ?_, ?_, q5.trans (b8.trans r5)⟩
         · intro hs
           rw [q3] at hs ⊢
           rcases b4 hs with ⟨_, a, ha, hmo⟩ | ⟨m0, m⟩
@@ -225,7 +225,7 @@ theorem bmca_inv_with (i i' : Inst) (order : List Nat) (step : Int) (obs : Obs) 
     obtain ⟨p, hp, hj⟩ := getOld j p' hp'
     obtain ⟨p'', hp'', _, _, _, _, _, c6⟩ := l5 j p hp
     rw [hp'] at hp''; cases hp''
-    exact c6 (hcov j hj) hso
+    exact c6.1 (hcov j hj) hso
 
 /-- **At most one Slave after every BMCA run**, **a master-only port is never Slave**, and — runtime
 slave-only — **no Master port is left once a BMCA run has completed** on a slave-only instance.
